@@ -180,6 +180,9 @@ def _table_agreement(run: Run, m) -> None:
                 vocab.add(c.args[0].value)
     os_cls = m.find_class("ObjectStream", in_module="func_adl.object_stream")
     vocab |= {n_ for n_ in os_cls.methods if not n_.startswith("_")}
+    # names the stream class emits may reach function_call through a helper or a record: every identifier-like string
+    # constant of object_stream.py counts (the table itself lives in another module)
+    vocab |= {x.value for x in ast.walk(os_cls.module.tree) if isinstance(x, ast.Constant) and isinstance(x.value, str) and x.value.isidentifier()}
     for entry in sorted(table):
         run.check(entry in vocab, "C17.R5", outer, lst, f"table entry '{entry}' is the name of an operator of the package", f"'{entry}' in default_list_of_functions is not the name of any operator the package emits, dispatches on or defines: the operators it was meant to list (e.g. two names merged by a lost comma) stay in method form", key=f"table entry {entry!r} is no operator")
     for name, why in sorted(need.items()):
